@@ -14,6 +14,7 @@
 
 #include "addrspace.h"
 #include "as_endian.h"
+#include "bpemu.h"
 #include "cmdarg.h"
 #include "fileformat.h"
 #include "ioerrs.h"
@@ -142,7 +143,10 @@ void ReadRecordHeader(
 #endif
 
     if (fread(Header, 1, 1, f) != 1) {
+        /* an I/O error, or the file ends without an end record: */
+
         ChkIO(Name);
+        FormatError(Name, catgetmessage(&MsgCat, Num_FormatRecordHeaderMsg));
     }
     if ((*Header != FileHeaderEnd) && (*Header != FileHeaderStartAdr)) {
         if ((*Header == FileHeaderDataRec) || (*Header == FileHeaderRDataRec)
@@ -155,6 +159,12 @@ void ReadRecordHeader(
             }
             if (fread(Gran, 1, 1, f) != 1) {
                 ChkIO(Name);
+            }
+            /* the callers index tables with the segment and divide by the
+               granularity: */
+
+            if ((*Segment >= SegCount) || (*Gran == 0)) {
+                FormatError(Name, catgetmessage(&MsgCat, Num_FormatRecordHeaderMsg));
             }
         } else if (*Header <= 0x7f) {
             *CPU     = *Header;
@@ -233,6 +243,12 @@ void SkipRecord(Byte Header, char const* Name, FILE* f) {
         break;
     }
 
+    /* never seek backwards or beyond the end: a corrupt length would make
+       the caller's record loop run forever */
+
+    if ((Length < 0) || (ftell(f) + Length > FileSize(f))) {
+        FormatError(Name, catgetmessage(&MsgCat, Num_FormatRecordHeaderMsg));
+    }
     if (fseek(f, Length, SEEK_CUR) != 0) {
         ChkIO(Name);
     }
